@@ -158,7 +158,7 @@ def run_case(case):
             k = str(rng.choice(G.KINDS + ["nidq", "NP2.1-1030", "NP2.4-2013"]))
             try:
                 if k == "nidq":
-                    rec = G.make_nidq(rng, mn=int(rng.integers(0, 9)), ma=int(rng.integers(0, 3)), xa=int(rng.integers(0, 4)), dw=int(rng.integers(1, 2)),
+                    rec = G.make_nidq(rng, mn=int(rng.integers(0, 9)), ma=int(rng.integers(0, 3)), xa=int(rng.integers(1, 4)), dw=int(rng.integers(0, 2)),
                                       mn_gain=float(rng.choice([1, 200, 500])), ma_gain=float(rng.choice([1, 2, 10])),
                                       aimax=float(rng.choice([5, 10, 2.5])), fs=float(rng.choice([30003.0003, 25000, 62500.0])),
                                       ns=int(rng.integers(1, 10 ** 7)), raw=np.zeros((1, 1), np.int16), tilde=bool(rng.integers(0, 2)))
@@ -181,6 +181,7 @@ def run_case(case):
                     fs = float(rng.choice([30000.0, 30000.390639481, 29999.757983])) if stream == "ap" else float(rng.choice([2500.0, 2500.0325532900833]))
                     gains = G.random_gains(rng, "random" if rng.random() < 0.8 else "uniform")
                     rec = G.make(rng, kind=kind, stream=stream, sites=G.draw_sites(rng, kind, n, "dense"), gains=gains, fs=fs,
+                                 nsync=int(rng.choice([1, 1, 1, 0])),       # streams saved without the SY channel exist too
                                  ns=int(rng.integers(1, 10 ** 8)), aimax=aimax, maxint=maxint,
                                  explicit_maxint=bool(rng.integers(0, 2)) if maxint == 512 else True, extra=extra,
                                  tilde=bool(rng.integers(0, 2)), raw=np.zeros((1, 1), np.int16),
